@@ -109,3 +109,10 @@ def _f13(v):
     if v["kind"] == "not_transitive":
         return d.get("equal_links_only_via_marker_blindspot") is True
     return False
+
+
+@predicate("F14")
+def _f14(v):
+    d = v["detail"]
+    return (v["kind"] == "configurations_differ" and d.get("spec_has_negated_class") is True
+            and d.get("differs_only_inside_equal_length_strings") is True and d.get("in_process_stable") is True)
